@@ -180,7 +180,12 @@ class CGenerator:
         # no_type is used when a Decl is part of a DeclList, where the type is
         # explicitly only for the first declaration in a list.
         #
-        s = n.name if no_type else self._generate_decl(n)
+        if no_type:
+            # Only the declarator: the specifiers were printed with the first
+            # declaration of the list.
+            s = self._generate_type(n.type, emit_basetype=False)
+        else:
+            s = self._generate_decl(n)
         if n.bitsize:
             s += " : " + self.visit(n.bitsize)
         if n.init:
@@ -506,6 +511,7 @@ class CGenerator:
         n: c_ast.Node,
         modifiers: List[c_ast.Node] = [],
         emit_declname: bool = True,
+        emit_basetype: bool = True,
     ) -> str:
         """Recursive generation from a type node. n is the type node.
         modifiers collects the PtrDecl, ArrayDecl and FuncDecl modifiers
@@ -552,6 +558,8 @@ class CGenerator:
                                 nstr = f"* {quals}{suffix}"
                             else:
                                 nstr = "*" + nstr
+                if not emit_basetype:
+                    return nstr
                 if nstr:
                     s += " " + nstr
                 return s
@@ -563,7 +571,10 @@ class CGenerator:
                 return " ".join(n.names) + " "
             case c_ast.ArrayDecl() | c_ast.PtrDecl() | c_ast.FuncDecl():
                 return self._generate_type(
-                    n.type, modifiers + [n], emit_declname=emit_declname
+                    n.type,
+                    modifiers + [n],
+                    emit_declname=emit_declname,
+                    emit_basetype=emit_basetype,
                 )
             case _:
                 return self.visit(n)
